@@ -155,7 +155,7 @@ func c14MakeGenesis(proto protocol.ConsensusVersion) *c14Genesis {
 	}
 	accts[sink] = basics.AccountData{MicroAlgos: basics.MicroAlgos{Raw: 1_000_000_000}, Status: basics.NotParticipating}
 	accts[pool] = basics.AccountData{MicroAlgos: basics.MicroAlgos{Raw: 900_000_000_000_000}}
-	g.balances = bookkeeping.MakeGenesisBalances(accts, sink, pool)
+	g.balances = bookkeeping.MakeTimestampedGenesisBalances(accts, sink, pool, 1_700_000_000) // no wall clock in the genesis block
 	var genHash crypto.Digest
 	copy(genHash[:], c14FilledBytes(32, 0x77))
 	blk, err := bookkeeping.MakeGenesisBlock(proto, g.balances, "verif-c14", genHash)
@@ -432,8 +432,9 @@ func (n *c14Node) addBatch(blks []bookkeeping.Block, flush bool) error {
 
 // reload is Ledger.reloadLedger (the in-process restart used by catchup / tests).
 func (n *c14Node) reload() error {
-	// reloadLedger's replay may flush; pin the time input for determinism of *that* decision
-	// is unnecessary: replay overwrites lastFlushTime itself when it decides to flush.
+	// reloadLedger's replay decides by itself (from round numbers only) whether to flush and then
+	// overwrites lastFlushTime, so no pinning is needed here. No notifyCommit is in flight:
+	// every addBlock settles first.
 	if n.cfgAfter != nil {
 		n.cfg = *n.cfgAfter
 		n.cfgAfter = nil
